@@ -79,8 +79,13 @@ def handle (_ : Unit) (toks : List Tok) : Unit × String :=
   let r : Option String :=
     match toks with
     | Tok.str "write" :: args => do
-        let m ← molOf args
-        match write m with
+        -- optional 9th argument: the order in which the set of left-over sections was iterated
+        let m ← molOf (args.take 8)
+        let order ← match args.drop 8 with
+          | [] => pure (remainingNames m)
+          | [o] => strs? o
+          | _ => none
+        match writeOrd m order with
         | .error e => pure ("err " ++ encErr e)
         | .ok ls =>
           let text := render ls
@@ -88,8 +93,9 @@ def handle (_ : Unit) (toks : List Tok) : Unit × String :=
           let co := charOk m
           let rtTok := isOkEq (parseTokens arityTable (ls.map lineTokens)) (canon m)
           let rtChr := isOkEq (parse arityTable text) (canon m)
+          let perm := order.isPerm (remainingNames m)
           pure ("ok " ++ encBool wf ++ " " ++ encBool co ++ " " ++ encBool (!wf || rtTok) ++ " "
-                ++ encBool (!(wf && co) || rtChr) ++ " " ++ encStr text)
+                ++ encBool (!(wf && co) || rtChr) ++ " " ++ encBool perm ++ " " ++ encStr text)
     | Tok.str "hist" :: rounds :: args => do
         let m ← molOf args
         let rs ← (← rounds.list?).mapM (fun r => do (← r.list?).mapM editOf)
@@ -104,9 +110,13 @@ def handle (_ : Unit) (toks : List Tok) : Unit × String :=
         | .error e => pure ("perr " ++ encPErr e)
     | Tok.str "repo" :: args => do
         -- the composed model: the repo's own reader (C13 model) on what the writer model writes
-        let m ← molOf args
+        let m ← molOf (args.take 8)
+        let order ← match args.drop 8 with
+          | [] => pure (remainingNames m)
+          | [o] => strs? o
+          | _ => none
         let ro := Repo.repoOk (Repo.itpTab.map (·.path)) m
-        match write m with
+        match writeOrd m order with
         | .error e => pure ("err " ++ encErr e)
         | .ok ls =>
           let rt := match Repo.readITPx Repo.itpIdx Repo.itpTab (Repo.textLines (render ls)) with
